@@ -49,7 +49,7 @@ def build_cmd(kind, k):
             "q24": lambda: dg.QueryDeviceStatus(DeviceShort(k)), "c24": lambda: dg.IdentifyDevice(DeviceShort(k))}[kind]()
 
 
-def make_world(driver, callers_spec, mode="plain", dup=False, exc_on=True, start_seq=1, foreign=False):
+def make_world(driver, callers_spec, mode="plain", dup=False, exc_on=True, start_seq=1, foreign=False, observers=False):
     """callers_spec: list of (kind, outcome)."""
     def make():
         table = {}
@@ -101,6 +101,7 @@ def make_world(driver, callers_spec, mode="plain", dup=False, exc_on=True, start
             if reps and foreign != "any-time":
                 w.foreign_before = {i: reps for i in range(len(cmds))}      # ... before each of our transmissions (bus busy)
             w.dup = dup
+            w.oneshot_observers = observers
             w.reorder_reports = not dup       # (the duplicate report of the firmware quirk belongs to a LATER bus frame: it cannot overtake)
         else:
             from dalimc.aio.serialworld import SerialWorld
@@ -481,13 +482,16 @@ def shards(tier):
     for start_seq in (1, 254, 255):
         for kinds in (("num", "num"), ("num", "yn", "num")):
             out.append(("foreign", "tridonic", kinds, start_seq, 2 if tier == "quick" else 3))
+    for drv in ("tridonic", "hasseb"):
+        for kinds in (("num", "num"), ("off", "num"), ("dt", "yn"), ("twice", "num")):
+            out.append(("observers", drv, kinds, 1 if tier == "quick" else 2))
     out.append(("sync",))
     out.append(("atx-threads",))
     return out
 
 
-def _explore(res, driver, spec, mode, bound, dup=False, exc_on=True, start_seq=1, foreign=False):
-    mk = make_world(driver, spec, mode, dup, exc_on, start_seq, foreign)
+def _explore(res, driver, spec, mode, bound, dup=False, exc_on=True, start_seq=1, foreign=False, observers=False):
+    mk = make_world(driver, spec, mode, dup, exc_on, start_seq, foreign, observers)
     outs = set()
     for ch, got in explore(lambda c: execute(mk, c), bound):
         w, obs = got
@@ -501,6 +505,7 @@ def _explore(res, driver, spec, mode, bound, dup=False, exc_on=True, start_seq=1
         v["case"].setdefault("exc_on", exc_on)
         v["case"].setdefault("start_seq", start_seq)
         v["case"].setdefault("foreign", foreign)
+        v["case"].setdefault("observers", observers)
     return outs
 
 
@@ -545,6 +550,12 @@ def run_shard(shard):
         for oa, ob in OUT_PAIRS:
             outs |= {(ka, kb, oa, ob, o) for o in _explore(res, "tridonic", [(ka, oa), (kb, ob)], "trx2", bound)}
         sample(res, {"driver": "tridonic", "two_in_flight": [ka, kb], "bound": bound})
+    elif k == "observers":
+        # application observers that unregister themselves from inside their callback: the callers' answers are unaffected
+        _, drv, kinds, bound = shard
+        for oc in ((("value", 1), ("value", 2)), (("none",), ("value", 9)), (("err",), ("value", 0x42))):
+            outs |= {(kinds, oc, o) for o in _explore(res, drv, list(zip(kinds, oc)), "plain", bound, observers=True)}
+        sample(res, {"driver": drv, "self_unregistering_observers": True, "kinds": list(kinds), "bound": bound})
     elif k == "foreign":
         # traffic of ANOTHER master (a query and its answer 0x5A) observed while our commands are queued / in flight, with the
         # driver's sequence numbers at and across their wrap: an answer "intended for another" is never handed to a caller
@@ -698,7 +709,7 @@ def replay(case):
         return [v for v in run_shard(("sync",))["violations"] if v["case"]["driver"] == drv and v["case"]["spec"] == case["spec"]
                 and v["case"].get("multi") == case.get("multi") and v["case"].get("foreign") == case.get("foreign")]
     bound = case.get("bound", 2)
-    mk = make_world(drv, spec, mode, exc_on=case.get("exc_on", True), start_seq=case.get("start_seq", 1), foreign=case.get("foreign") if isinstance(case.get("foreign"), str) else False)
+    mk = make_world(drv, spec, mode, exc_on=case.get("exc_on", True), start_seq=case.get("start_seq", 1), foreign=case.get("foreign") if isinstance(case.get("foreign"), str) else False, observers=case.get("observers", False))
     first = None
     for ch, got in explore(lambda c: execute(mk, c), bound):
         w, obs = got
